@@ -46,6 +46,8 @@ func b64enc(url, pad string) *base64.Encoding {
 	return base64.RawStdEncoding
 }
 
+var miceAll func(args []string) string
+
 func init() {
 	register("sha256", func(args []string) string {
 		s := sha256.Sum256(ofHex(args[0]))
@@ -111,7 +113,8 @@ func init() {
 		}
 		return fmt.Sprintf("%s %s", toHex(out), miceStatus(final))
 	}
-	register("mice.all", func(args []string) string { return dec(args, nil, false) })
+	miceAll = func(args []string) string { return dec(args, nil, false) }
+	register("mice.all", miceAll)
 	register("mice.dec", func(args []string) string {
 		sizes := []int{}
 		if args[4] != "-" {
